@@ -34,7 +34,7 @@ def run(ctx):
         if ctx['tier'] == 'quick': lines = rnd.sample(lines, min(len(lines), 600))
         for j, l in enumerate(lines):
             e, inp = (l.split('\t', 1) + ['null'])[:2]
-            corpus.append(mkcase('K%s%d' % (f[5], j), lib.new_cfg(select=[e + '=x']), inp.encode('utf8')))
+            corpus.append(mkcase('K%s%d' % (f[5:8], j), lib.new_cfg(select=[e + '=x']), inp.encode('utf8')))
     # documentation examples
     docs = []; dmeta = {}
     for f in exprgen.table():
